@@ -32,23 +32,31 @@ abbrev KD := K DS
 def lg (site : String) (args : List Nat) : KD Unit := fun s =>
   (.ok (), { s with log := s.log.push (site ++ "(" ++ ",".intercalate (args.map toString) ++ ")") })
 
-def look {β : Type} (tbl : Array β) (i : Nat) : KD β :=
+/-- the exception a table entry `X` / a thunk `X` throws -/
+def excE2 : Fault := .exception (.other "E2")
+
+/-- a table entry: `none` = the continuation throws `E2` there -/
+def look {β : Type} (tbl : Array (Option β)) (i : Nat) : KD β :=
   match tbl[i]? with
-  | some v => pure v
+  | some (some v) => pure v
+  | some none => K.fault excE2
   | none => K.fault .oob
 
-def fn1 {β : Type} (site : String) (tbl : Array β) : Nat → KD β := fun x => do
+def fn1 {β : Type} (site : String) (tbl : Array (Option β)) : Nat → KD β := fun x => do
   lg site [x]
   look tbl x
-def fn2 {β : Type} (site : String) (tbl : Array β) : Nat → Nat → KD β := fun x y => do
+def fn2 {β : Type} (site : String) (tbl : Array (Option β)) : Nat → Nat → KD β := fun x y => do
   lg site [x, y]
   look tbl (x * 3 + y)
-def fn3 {β : Type} (site : String) (tbl : Array β) : Nat → Nat → Nat → KD β := fun x y z => do
+def fn3 {β : Type} (site : String) (tbl : Array (Option β)) : Nat → Nat → Nat → KD β := fun x y z => do
   lg site [x, y, z]
   look tbl ((x * 3 + y) * 3 + z)
-def thunk {β : Type} (site : String) (v : β) : Unit → KD β := fun _ => do
+/-- a thunk: `none` = it throws `E2` -/
+def thunk {β : Type} (site : String) (v : Option β) : Unit → KD β := fun _ => do
   lg site []
-  pure v
+  match v with
+  | some x => pure x
+  | none => K.fault excE2
 
 /-! ### reading and printing values -/
 abbrev P (α : Type) := List Char → Option (α × List Char)
@@ -59,7 +67,7 @@ open Rd Sh
 abbrev V3 := Var 3 (fun _ => Nat)
 
 inductive Outcome where
-  | ret (d : Nat) | throwCaught (d : Nat) | throwOther
+  | ret (d : Nat) | throwCaught (d : Nat) | throwDerived (d : Nat) | throwOther
 
 instance : Rd Nat := ⟨fun
   | c :: r => if c = '0' ∨ c = '1' ∨ c = '2' then some (c.toNat - 48, r) else none
@@ -77,6 +85,27 @@ instance : Rd V3 := ⟨fun
   | 'B' :: r => (rd (α := Nat) r).map fun (x, r') => (⟨1, x⟩, r')
   | 'C' :: r => (rd (α := Nat) r).map fun (x, r') => (⟨2, x⟩, r')
   | _ => none⟩
+/-- a reference / the address of one of the three cells -/
+structure Ref where
+  idx : Nat
+  deriving DecidableEq
+
+instance : Rd Ref := ⟨fun
+  | '&' :: r => (rd (α := Nat) r).map fun (i, r') => (⟨i⟩, r')
+  | _ => none⟩
+instance : Rd (Ptr Ref) := ⟨fun
+  | 'P' :: '-' :: r => some (.null, r)
+  | 'P' :: r => (rd (α := Ref) r).map fun (x, r') => (.to x, r')
+  | _ => none⟩
+
+/-- an entry of the function table of `sequence_error`: success (`u`) or a failure -/
+instance : Rd (Either Nat Unit) := ⟨fun
+  | 'u' :: r => some (.success (), r)
+  | cs => (rd (α := Nat) cs).map fun (x, r') => (.failure x, r')⟩
+
+instance : Rd Unit := ⟨fun
+  | 'u' :: r => some ((), r)
+  | _ => none⟩
 instance : Rd Bool := ⟨fun
   | 't' :: r => some (true, r)
   | 'f' :: r => some (false, r)
@@ -84,6 +113,7 @@ instance : Rd Bool := ⟨fun
 instance : Rd Outcome := ⟨fun
   | 'R' :: r => (rd (α := Nat) r).map fun (x, r') => (.ret x, r')
   | 'X' :: r => (rd (α := Nat) r).map fun (x, r') => (.throwCaught x, r')
+  | 'Z' :: r => (rd (α := Nat) r).map fun (x, r') => (.throwDerived x, r')
   | 'Y' :: r => some (.throwOther, r)
   | _ => none⟩
 
@@ -98,11 +128,20 @@ instance {α : Type} [Rd α] : Rd (List α) := ⟨fun
   | '[' :: r => rdListGo (r.length + 1) r []
   | _ => none⟩
 
-def rdN {α : Type} [Rd α] : Nat → List Char → List α → Option (List α × List Char)
+/-- a value or `X` -/
+structure OrX (α : Type) where
+  val : Option α
+
+instance {α : Type} [Rd α] : Rd (OrX α) := ⟨fun
+  | 'X' :: r => some (⟨none⟩, r)
+  | cs => (rd cs).map fun (x, r') => (⟨some x⟩, r')⟩
+
+def rdN {α : Type} [Rd α] : Nat → List Char → List (Option α) → Option (List (Option α) × List Char)
   | 0, cs, acc => some (acc.reverse, cs)
+  | n + 1, 'X' :: r, acc => rdN n r (none :: acc)
   | n + 1, cs, acc =>
     match rd cs with
-    | some (x, r) => rdN n r (x :: acc)
+    | some (x, r) => rdN n r (some x :: acc)
     | none => none
 
 /-- a whole token as one value -/
@@ -111,13 +150,28 @@ def tok (α : Type) [Rd α] (s : String) : Option α :=
   | some (x, []) => some x
   | _ => none
 
-/-- a whole token as a table of `n` values -/
-def tbl (α : Type) [Rd α] (n : Nat) (s : String) : Option (Array α) :=
+/-- a whole token as one value or `X` -/
+def tokx (α : Type) [Rd α] (s : String) : Option (Option α) :=
+  if s = "X" then some none else (tok α s).map some
+
+/-- a whole token as a table of `n` entries (value or `X`) -/
+def tbl (α : Type) [Rd α] (n : Nat) (s : String) : Option (Array (Option α)) :=
   match rdN n s.toList [] with
   | some (l, []) => some l.toArray
   | _ => none
 
+/-- value categories: one letter for all arguments -/
 def cat? (s : String) : Option Unit := if s = "L" ∨ s = "C" ∨ s = "R" then some () else none
+/-- lvalue categories only -/
+def catLC? (s : String) : Option Unit := if s = "L" ∨ s = "C" then some () else none
+/-- one letter per argument (all nine combinations), or one for both -/
+def cat2? (s : String) : Option Unit :=
+  if s.length = 1 then cat? s
+  else if s.length = 2 ∧ s.toList.all (fun c => c = 'L' ∨ c = 'C' ∨ c = 'R') then some () else none
+/-- one letter per argument (the combinations the harness instantiates), or one for all three -/
+def cat3? (s : String) : Option Unit :=
+  if s.length = 1 then cat? s
+  else if ["LLL", "CCC", "RRR", "RLL", "LRL", "LLR", "RRL", "RLR", "LRR"].contains s then some () else none
 
 instance : Sh Nat := ⟨toString⟩
 instance {α : Type} [Sh α] : Sh (Option α) := ⟨fun | none => "N" | some x => "J" ++ sh x⟩
@@ -125,6 +179,9 @@ instance {φ α : Type} [Sh φ] [Sh α] : Sh (Either φ α) := ⟨fun | .failure
 instance : Sh V3 := ⟨fun v => (if v.idx.val = 0 then "A" else if v.idx.val = 1 then "B" else "C") ++ toString (show Nat from v.val)⟩
 instance : Sh Bool := ⟨fun b => if b then "t" else "f"⟩
 instance : Sh Unit := ⟨fun _ => "u"⟩
+instance : Sh String := ⟨id⟩
+instance : Sh Ref := ⟨fun r => "&" ++ toString r.idx⟩
+instance : Sh (Ptr Ref) := ⟨fun | .null => "P-" | .to r => "P" ++ sh r⟩
 instance {α : Type} [Sh α] : Sh (List α) := ⟨fun l => "[" ++ String.join (l.map sh) ++ "]"⟩
 
 def showLog (l : Array String) : String := if l.isEmpty then "-" else ";".intercalate l.toList
@@ -142,9 +199,16 @@ def run2 {ρ : Type} [Sh ρ] (m₁ m₂ : KD ρ) : String := run1 m₁ ++ " || "
 /-! ### continuations that need more than a table -/
 
 /-- the `k`-th thunk of `first_success` -/
-def nthThunk (i : Nat) (e : Either Nat Nat) : Unit → KD (Either Nat Nat) := fun _ => do
+def nthThunk (i : Nat) (e : OrX (Either Nat Nat)) : Unit → KD (Either Nat Nat) := fun _ => do
   lg "n" [i]
-  pure e
+  match e.val with
+  | some r => pure r
+  | none => K.fault excE2
+
+/-- the body of `loop`: logs; throws where the table says `X` -/
+def loopBody (tbl : Array (Option Unit)) : Nat → KD Unit := fun x => do
+  lg "b" [x]
+  look tbl x
 
 /-- `next` of `loop`: pops the queue; throws the uncaught exception type when it is empty -/
 def popNext : Unit → KD (Either Nat Nat) := fun _ s =>
@@ -158,11 +222,15 @@ def outcomeThunk (o : Outcome) : Unit → KD Nat := fun _ => do
   match o with
   | .ret d => pure d
   | .throwCaught d => K.fault (.exception (.other ("E1:" ++ toString d)))
+  | .throwDerived d => K.fault (.exception (.other ("E1d:" ++ toString d)))
   | .throwOther => K.fault (.exception (.other "E2"))
 
 /-- which exception kinds `try_call<E1>` catches -/
 def catchesE1 : ExcKind → Option Nat
-  | .other s => if s.startsWith "E1:" then (s.drop 3).toString.toNat? else none
+  | .other s =>
+    if s.startsWith "E1:" then (s.drop 3).toString.toNat?
+    else if s.startsWith "E1d:" then (s.drop 4).toString.toNat?   -- derived from E1: caught by `E1 const &`
+    else none
   | _ => none
 
 def natEq (a b : Nat) : Bool := a == b
@@ -174,6 +242,124 @@ def fin3 (s : String) : Option (Fin 3) :=
   | "1" => some 1
   | "2" => some 2
   | _ => none
+
+/-- copy / move construction and assignment, `std::swap`, also of an object with itself -/
+def asgOp {τ : Type} [Sh τ] (k : String) (a b : τ) : Option String :=
+  match k with
+  | "copy" | "cctor" => let (x, y) := assignObj a b; some s!"{sh x} {sh y}"
+  | "move" | "mctor" => some (sh (assignObj a b).1)
+  | "swap" => let (x, y) := swapObj a b; some s!"{sh x} {sh y}"
+  | "self" | "selfmove" => some (sh (assignObj a a).1)
+  | "selfswap" => some (sh (swapObj a a).1)
+  | _ => none
+
+/-! ### continuations that write through their (reference) argument: the source shows the new value afterwards -/
+def bumpN (x : Nat) : Nat := (x + 1) % 3
+/-- what the source looks like afterwards: bumped iff the continuation was called (the log is not empty) -/
+def afterCall {τ : Type} [Sh τ] (called : Bool) (src bumped : τ) : String := if called then sh bumped else sh src
+def bumpE : Either Nat Nat → Either Nat Nat
+  | .success x => .success (bumpN x)
+  | .failure x => .failure (bumpN x)
+def bumpV (v : V3) : V3 := ⟨v.idx, bumpN (show Nat from v.val)⟩
+
+/-- run `m`, then print the sources as they are after it: `bumped` if the continuation named `site` was called -/
+def runMut {ρ : Type} [Sh ρ] (m : KD ρ) (sites : List String) (srcs : List (String × String)) : String :=
+  let (r, s) := m {}
+  let called := s.log.any fun e => sites.any fun site => e.startsWith (site ++ "(")
+  let res := match r with
+    | .ok v => sh v ++ String.join (srcs.map fun (a, b) => " " ++ (if called then b else a))
+    | .error e => e.name
+  res ++ " | " ++ showLog s.log
+
+def handleMut (toks : List String) : Option String :=
+  match toks with
+  | ["o.map.mut", o, f] => do
+    let o ← tok (Option Nat) o; let f ← tbl Nat 3 f
+    pure (runMut (Opt.map o (fn1 "f" f)) ["f"] [(sh o, sh (o.map bumpN))])
+  | ["o.bind.mut", o, f] => do
+    let o ← tok (Option Nat) o; let f ← tbl (Option Nat) 3 f
+    pure (runMut (Opt.bind o (fn1 "f" f)) ["f"] [(sh o, sh (o.map bumpN))])
+  | ["o.maybe.mut", o, d, t] => do
+    let o ← tok (Option Nat) o; let d ← tokx Nat d; let t ← tbl Nat 3 t
+    pure (runMut (Opt.maybe o (thunk "d" d) (fn1 "t" t)) ["t"] [(sh o, sh (o.map bumpN))])
+  | ["o.maybe_void.mut", o] => do
+    let o ← tok (Option Nat) o
+    pure (runMut (Opt.maybeVoid o (fun x => lg "t" [x])) ["t"] [(sh o, sh (o.map bumpN))])
+  | ["o.apply2.mut", o1, o2, f] => do
+    let o1 ← tok (Option Nat) o1; let o2 ← tok (Option Nat) o2; let f ← tbl Nat 9 f
+    pure (runMut (Opt.apply2 (fn2 "f" f) o1 o2) ["f"] [(sh o1, sh (o1.map bumpN)), (sh o2, sh (o2.map bumpN))])
+  | ["o.mm2.mut", o1, o2, d, t] => do
+    let o1 ← tok (Option Nat) o1; let o2 ← tok (Option Nat) o2; let d ← tokx Nat d; let t ← tbl Nat 9 t
+    pure (runMut (Opt.maybeMulti2 (thunk "d" d) (fn2 "t" t) o1 o2) ["t"] [(sh o1, sh (o1.map bumpN)), (sh o2, sh (o2.map bumpN))])
+  | ["e.map.mut", e, f] => do
+    let e ← tok (Either Nat Nat) e; let f ← tbl Nat 3 f
+    pure (runMut (Either.map e (fn1 "f" f)) ["f"] [(sh e, sh (bumpE e))])
+  | ["e.bind.mut", e, f] => do
+    let e ← tok (Either Nat Nat) e; let f ← tbl (Either Nat Nat) 3 f
+    pure (runMut (Either.bind e (fn1 "f" f)) ["f"] [(sh e, sh (bumpE e))])
+  | ["e.mapf.mut", e, f] => do
+    let e ← tok (Either Nat Nat) e; let f ← tbl Nat 3 f
+    pure (runMut (Either.mapFailure e (fn1 "f" f)) ["f"] [(sh e, sh (bumpE e))])
+  | ["e.match.mut", e, ff, fs] => do
+    let e ← tok (Either Nat Nat) e; let ff ← tbl Nat 3 ff; let fs ← tbl Nat 3 fs
+    pure (runMut (Either.match_ e (fn1 "ff" ff) (fn1 "fs" fs)) ["ff", "fs"] [(sh e, sh (bumpE e))])
+  | ["e.apply2.mut", e1, e2, f] => do
+    let e1 ← tok (Either Nat Nat) e1; let e2 ← tok (Either Nat Nat) e2; let f ← tbl Nat 9 f
+    pure (runMut (Either.apply2 (fn2 "f" f) e1 e2) ["f"] [(sh e1, sh (bumpE e1)), (sh e2, sh (bumpE e2))])
+  | ["v.match.mut", v, fa, fb, fc] => do
+    let v ← tok V3 v; let fa ← tbl Nat 3 fa; let fb ← tbl Nat 3 fb; let fc ← tbl Nat 3 fc
+    pure (runMut (Var.match_ v (fun i (x : Nat) =>
+      if i.val = 0 then fn1 "a" fa x else if i.val = 1 then fn1 "b" fb x else fn1 "c" fc x)) ["a", "b", "c"] [(sh v, sh (bumpV v))])
+  | ["v.apply1.mut", v, f] => do
+    let v ← tok V3 v; let f ← tbl Nat 9 f
+    pure (runMut (Var.apply (fun i (x : Nat) => fn2 "f" f i.val x) v) ["f"] [(sh v, sh (bumpV v))])
+  | _ => none
+
+/-- `variant<A, thrower>` that may be valueless: `A<d>`, `T`, `V` -/
+abbrev V2 := VarV 2 (fun _ => Nat)
+
+instance : Rd V2 := ⟨fun
+  | 'A' :: r => (rd (α := Nat) r).map fun (x, r') => (some ⟨0, x⟩, r')
+  | 'T' :: r => some (some ⟨1, (0 : Nat)⟩, r)
+  | 'V' :: r => some (none, r)
+  | _ => none⟩
+def shV2 (v : V2) : String :=
+  match v with
+  | none => "V"
+  | some w => if w.idx.val = 0 then "A" ++ toString (show Nat from w.val) else "T"
+
+/-- the visitor of the `vv.obs` operations -/
+def visit2 : (i : Fin 2) → Nat → KD Nat := fun i x =>
+  if i.val = 0 then do lg "a" [x]; pure x else do lg "t" []; pure 7
+
+def handleVV (toks : List String) : Option String :=
+  match toks with
+  | ["vv.assign", d, s, armed] => do
+    let d ← tok V2 d; let s ← tok V2 s; let armed ← tok Bool armed
+    if armed ∧ !VarV.holdsType 1 s then none
+    let (x, threw) := VarV.assign d s armed
+    pure s!"{shV2 x} {sh threw} | -"
+  | ["vv.obs", v, k] => do
+    let v ← tok V2 v
+    match k with
+    | "invalid" => pure (run1 (pure (VarV.isInvalid v)))
+    | "index" => pure (run1 (pure (match VarV.typeIndex v with | none => "npos" | some i => toString i)))
+    | "holds" => pure (run1 (pure [VarV.holdsType 0 v, VarV.holdsType 1 v]))
+    | "to_opt" | "to_opt_ref" => pure (run1 (ρ := Option Nat) (VarV.toOptional 0 v))
+    | "apply" | "match" => pure (run1 (VarV.apply visit2 v))
+    | "tinfo" => pure (run1 (VarV.apply (fun i _ => (pure i.val : KD Nat)) v))
+    | "out" => pure (run1 (VarV.apply (fun i x => (pure (if i.val = 0 then toString x else "T") : KD String)) v))
+    | _ => none
+  | ["vv.cmp", l, r] => do
+    let l ← tok V2 l; let r ← tok V2 r
+    let e := VarV.eq (fun _ => natEq) l r
+    -- all throwers are equal and none is smaller than another
+    let lt := VarV.lt (fun i a b => if i.val = 0 then natLt a b else false) l r
+    pure (run1 (pure [e, !e, lt]))
+  | ["vv.compare", l, r, res] => do
+    let l ← tok V2 l; let r ← tok V2 r; let res ← tok Bool res
+    pure (run1 (VarV.compare l r (fun i _ _ => do lg "c" [i.val]; pure res)))
+  | _ => handleMut toks
 
 /-! ### operations -/
 def handle1 (toks : List String) : Option String :=
@@ -195,20 +381,20 @@ def handle1 (toks : List String) : Option String :=
     cat? c; let o1 ← tok (Option Nat) o1; let f ← tbl Nat 3 f
     pure (run1 (Opt.apply1 (fn1 "f" f) o1))
   | ["o.apply2", c, o1, o2, f] => do
-    cat? c; let o1 ← tok (Option Nat) o1; let o2 ← tok (Option Nat) o2; let f ← tbl Nat 9 f
+    cat2? c; let o1 ← tok (Option Nat) o1; let o2 ← tok (Option Nat) o2; let f ← tbl Nat 9 f
     pure (run1 (Opt.apply2 (fn2 "f" f) o1 o2))
   | ["o.apply3", c, o1, o2, o3, f] => do
-    cat? c; let o1 ← tok (Option Nat) o1; let o2 ← tok (Option Nat) o2; let o3 ← tok (Option Nat) o3
+    cat3? c; let o1 ← tok (Option Nat) o1; let o2 ← tok (Option Nat) o2; let o3 ← tok (Option Nat) o3
     let f ← tbl Nat 27 f
     pure (run1 (Opt.apply3 (fn3 "f" f) o1 o2 o3))
   | ["o.filter", c, o, p] => do
     cat? c; let o ← tok (Option Nat) o; let p ← tbl Bool 3 p
     pure (run1 (Opt.filter o (fn1 "p" p)))
   | ["o.alt", c, o, a] => do
-    cat? c; let o ← tok (Option Nat) o; let a ← tok (Option Nat) a
+    cat? c; let o ← tok (Option Nat) o; let a ← tokx (Option Nat) a
     pure (run1 (Opt.alternative o (thunk "a" a)))
   | ["o.combine", c, o1, o2, f] => do
-    cat? c; let o1 ← tok (Option Nat) o1; let o2 ← tok (Option Nat) o2; let f ← tbl Nat 9 f
+    cat2? c; let o1 ← tok (Option Nat) o1; let o2 ← tok (Option Nat) o2; let f ← tbl Nat 9 f
     pure (run1 (Opt.combine o1 o2 (fn2 "f" f)))
   | ["o.cat", c, l] => do
     cat? c; let l ← tok (List (Option Nat)) l
@@ -217,26 +403,26 @@ def handle1 (toks : List String) : Option String :=
     cat? c; let l ← tok (List (Option Nat)) l
     pure (run1 (Opt.sequence (σ := DS) l))
   | ["o.from", c, o, d] => do
-    cat? c; let o ← tok (Option Nat) o; let d ← tok Nat d
+    cat? c; let o ← tok (Option Nat) o; let d ← tokx Nat d
     pure (run1 (Opt.from o (thunk "d" d)))
   | ["o.maybe", c, o, d, t] => do
-    cat? c; let o ← tok (Option Nat) o; let d ← tok Nat d; let t ← tbl Nat 3 t
+    cat? c; let o ← tok (Option Nat) o; let d ← tokx Nat d; let t ← tbl Nat 3 t
     pure (run1 (Opt.maybe o (thunk "d" d) (fn1 "t" t)))
   | ["o.maybe_void", c, o] => do
     cat? c; let o ← tok (Option Nat) o
     pure (run1 (Opt.maybeVoid o (fun x => lg "t" [x])))
   | ["o.mm1", c, o1, d, t] => do
-    cat? c; let o1 ← tok (Option Nat) o1; let d ← tok Nat d; let t ← tbl Nat 3 t
+    cat? c; let o1 ← tok (Option Nat) o1; let d ← tokx Nat d; let t ← tbl Nat 3 t
     pure (run1 (Opt.maybeMulti1 (thunk "d" d) (fn1 "t" t) o1))
   | ["o.mm2", c, o1, o2, d, t] => do
-    cat? c; let o1 ← tok (Option Nat) o1; let o2 ← tok (Option Nat) o2; let d ← tok Nat d; let t ← tbl Nat 9 t
+    cat2? c; let o1 ← tok (Option Nat) o1; let o2 ← tok (Option Nat) o2; let d ← tokx Nat d; let t ← tbl Nat 9 t
     pure (run1 (Opt.maybeMulti2 (thunk "d" d) (fn2 "t" t) o1 o2))
   | ["o.mm3", c, o1, o2, o3, d, t] => do
-    cat? c; let o1 ← tok (Option Nat) o1; let o2 ← tok (Option Nat) o2; let o3 ← tok (Option Nat) o3
-    let d ← tok Nat d; let t ← tbl Nat 27 t
+    cat3? c; let o1 ← tok (Option Nat) o1; let o2 ← tok (Option Nat) o2; let o3 ← tok (Option Nat) o3
+    let d ← tokx Nat d; let t ← tbl Nat 27 t
     pure (run1 (Opt.maybeMulti3 (thunk "d" d) (fn3 "t" t) o1 o2 o3))
   | ["o.make_if", b, v] => do
-    let b ← tok Bool b; let v ← tok Nat v
+    let b ← tok Bool b; let v ← tokx Nat v
     pure (run1 (Opt.makeIf b (thunk "f" v)))
   | ["o.cmp", a, b] => do
     let a ← tok (Option Nat) a; let b ← tok (Option Nat) b
@@ -273,10 +459,10 @@ def handle1 (toks : List String) : Option String :=
     cat? c; let e1 ← tok (Either Nat Nat) e1; let f ← tbl Nat 3 f
     pure (run1 (Either.apply1 (fn1 "f" f) e1))
   | ["e.apply2", c, e1, e2, f] => do
-    cat? c; let e1 ← tok (Either Nat Nat) e1; let e2 ← tok (Either Nat Nat) e2; let f ← tbl Nat 9 f
+    cat2? c; let e1 ← tok (Either Nat Nat) e1; let e2 ← tok (Either Nat Nat) e2; let f ← tbl Nat 9 f
     pure (run1 (Either.apply2 (fn2 "f" f) e1 e2))
   | ["e.apply3", c, e1, e2, e3, f] => do
-    cat? c; let e1 ← tok (Either Nat Nat) e1; let e2 ← tok (Either Nat Nat) e2; let e3 ← tok (Either Nat Nat) e3
+    cat3? c; let e1 ← tok (Either Nat Nat) e1; let e2 ← tok (Either Nat Nat) e2; let e3 ← tok (Either Nat Nat) e3
     let f ← tbl Nat 27 f
     pure (run1 (Either.apply3 (fn3 "f" f) e1 e2 e3))
   | ["e.mapf", c, e, f] => do
@@ -286,13 +472,16 @@ def handle1 (toks : List String) : Option String :=
     let l ← tok (List (Either Nat Nat)) l
     pure (run1 (Either.sequence (σ := DS) l))
   | ["e.first", l] => do
-    let l ← tok (List (Either Nat Nat)) l
+    let l ← tok (List (OrX (Either Nat Nat))) l
     pure (run1 (Either.firstSuccess ((List.range l.length).zipWith nthThunk l)))
   | ["e.loop", l] => do
     let l ← tok (List (Either Nat Nat)) l
     pure (runWith { queue := l } (Either.loop (l.length + 2) popNext (fun x => lg "b" [x])))
+  | ["e.loop", l, body] => do
+    let l ← tok (List (Either Nat Nat)) l; let body ← tbl Unit 3 body
+    pure (runWith { queue := l } (Either.loop (l.length + 2) popNext (loopBody body)))
   | ["e.from_opt", c, o, f] => do
-    cat? c; let o ← tok (Option Nat) o; let f ← tok Nat f
+    cat? c; let o ← tok (Option Nat) o; let f ← tokx Nat f
     pure (run1 (Either.fromOptional o (thunk "f" f)))
   | ["e.try", r, t] => do
     let r ← tok Outcome r; let t ← tbl Nat 3 t
@@ -317,7 +506,7 @@ def handle1 (toks : List String) : Option String :=
     cat? c; let v ← tok V3 v; let f ← tbl Nat 9 f
     pure (run1 (Var.apply (fun i (x : Nat) => fn2 "f" f i.val x) v))
   | ["v.apply2", c, v1, v2, f] => do
-    cat? c; let v1 ← tok V3 v1; let v2 ← tok V3 v2; let f ← tbl Nat 81 f
+    cat2? c; let v1 ← tok V3 v1; let v2 ← tok V3 v2; let f ← tbl Nat 81 f
     pure (run1 (Var.apply2 (fun i (x : Nat) j (y : Nat) => do
       lg "f" [i.val, x, j.val, y]
       look f (((i.val * 3 + x) * 3 + j.val) * 3 + y)) v1 v2))
@@ -336,7 +525,257 @@ def handle1 (toks : List String) : Option String :=
   | ["v.index", v] => do
     let v ← tok V3 v
     pure (run1 (pure (Var.typeIndex v)))
-  | _ => none
+  -- the same object as both operands -------------------------------------------------------
+  | ["o.combine.same", c, o, f] => do
+    catLC? c; let o ← tok (Option Nat) o; let f ← tbl Nat 9 f
+    pure (run1 (Opt.combine o o (fn2 "f" f)))
+  | ["o.apply2.same", c, o, f] => do
+    catLC? c; let o ← tok (Option Nat) o; let f ← tbl Nat 9 f
+    pure (run1 (Opt.apply2 (fn2 "f" f) o o))
+  | ["o.mm2.same", c, o, d, t] => do
+    catLC? c; let o ← tok (Option Nat) o; let d ← tokx Nat d; let t ← tbl Nat 9 t
+    pure (run1 (Opt.maybeMulti2 (thunk "d" d) (fn2 "t" t) o o))
+  | ["o.alt.same", c, o] => do
+    catLC? c; let o ← tok (Option Nat) o
+    pure (run1 (Opt.alternative o (thunk "a" (some o))))
+  | ["o.cmp.same", a] => do
+    let a ← tok (Option Nat) a
+    pure (run1 do
+      let e ← Opt.eq natEq a a; let n ← Opt.ne natEq a a; let l ← Opt.lt natLt a a
+      pure [e, n, l])
+  | ["e.apply2.same", c, e, f] => do
+    catLC? c; let e ← tok (Either Nat Nat) e; let f ← tbl Nat 9 f
+    pure (run1 (Either.apply2 (fn2 "f" f) e e))
+  | ["v.cmp.same", l] => do
+    let l ← tok V3 l
+    pure (run1 (pure [Var.eq (fun _ => natEq) l l, Var.ne (fun _ => natEq) l l, Var.lt (fun _ => natLt) l l]))
+  | ["v.compare.same", l, cmp] => do
+    let l ← tok V3 l; let cmp ← tbl Bool 27 cmp
+    pure (run1 (Var.compare l l (fun i (x y : Nat) => fn3 "c" cmp i.val x y)))
+  -- continuations returning a reference into their argument ----------------------------------
+  | ["o.maybe_ref", c, o, d] => do
+    catLC? c; let o ← tok (Option Nat) o; let d ← tok Nat d
+    pure (run1 (Opt.maybe o (fun _ => do lg "d" []; pure s!"d:{d}") (fun x => do lg "t" [x]; pure s!"in:{x}")))
+  | ["e.match_ref", c, e] => do
+    catLC? c; let e ← tok (Either Nat Nat) e
+    pure (run1 (Either.match_ e (fun x => do lg "ff" [x]; pure s!"in:{x}") (fun x => do lg "fs" [x]; pure s!"in:{x}")))
+  | ["v.match_ref", c, v] => do
+    catLC? c; let v ← tok V3 v
+    pure (run1 (Var.match_ v (fun i (x : Nat) => do
+      lg (if i.val = 0 then "a" else if i.val = 1 then "b" else "c") [x]; pure s!"in:{x}")))
+  | ["v.apply_ref", c, v] => do
+    catLC? c; let v ← tok V3 v
+    pure (run1 (Var.apply (fun i (x : Nat) => do lg "f" [i.val, x]; pure s!"in:{x}") v))
+  -- other container types --------------------------------------------------------------------
+  | ["o.cat.ld", c, l] => do
+    cat? c; let l ← tok (List (Option Nat)) l
+    pure (run1 (Opt.cat (σ := DS) l))
+  | ["o.seq.dl", c, l] => do
+    cat? c; let l ← tok (List (Option Nat)) l
+    pure (run1 (Opt.sequence (σ := DS) l))
+  | ["v.apply3", c, v1, v2, v3, f] => do
+    cat3? c; let v1 ← tok V3 v1; let v2 ← tok V3 v2; let v3 ← tok V3 v3; let f ← tbl Nat 27 f
+    pure (run1 (Var.apply3 (fun i (x : Nat) j (y : Nat) k (z : Nat) => do
+      lg "f" [i.val, x, j.val, y, k.val, z]
+      look f ((x * 3 + y) * 3 + z)) v1 v2 v3))
+  -- the rest of the public API: optional ------------------------------------------------------
+  | ["o.to_cont", c, o] => do
+    cat? c; let o ← tok (Option Nat) o
+    pure (run1 (Opt.toContainer (σ := DS) o))
+  | ["o.copy_value", c, o, cells] => do
+    catLC? c; let o ← tok (Option Ref) o; let cells ← tbl Nat 3 cells
+    pure (run1 (Opt.copyValue (fun (r : Ref) => look cells r.idx) o))
+  | ["o.deref", k, o, cells] => do
+    if k ≠ "p" ∧ k ≠ "i" then none
+    let o ← tok (Option Ref) o; let cells ← tbl Nat 3 cells
+    -- the result is a reference: it is printed with the value its cell has after every cell was bumped
+    pure (run1 do
+      let r ← Opt.deref (fun (p : Ref) => (pure p : KD Ref)) o
+      match r with
+      | none => pure "N"
+      | some ref => do
+        let v ← look cells ref.idx
+        pure s!"J{sh ref}={(v + 1) % 3}")
+  | ["o.deref_up", o] => do
+    let o ← tok (Option Nat) o
+    pure (run1 do
+      let r ← Opt.deref (fun (x : Nat) => (pure x : KD Nat)) o
+      pure (match r with | none => "N" | some v => s!"J&u={v}"))
+  | ["o.mvm1", c, o1] => do
+    cat? c; let o1 ← tok (Option Nat) o1
+    pure (run1 (Opt.maybeVoidMulti1 (fun x => lg "t" [x]) o1))
+  | ["o.mvm2", c, o1, o2] => do
+    cat2? c; let o1 ← tok (Option Nat) o1; let o2 ← tok (Option Nat) o2
+    pure (run1 (Opt.maybeVoidMulti2 (fun x y => lg "t" [x, y]) o1 o2))
+  | ["o.mvm3", c, o1, o2, o3] => do
+    cat3? c; let o1 ← tok (Option Nat) o1; let o2 ← tok (Option Nat) o2; let o3 ← tok (Option Nat) o3
+    pure (run1 (Opt.maybeVoidMulti3 (fun x y z => lg "t" [x, y, z]) o1 o2 o3))
+  | ["o.assign", o, v] => do
+    let o ← tok (Option Nat) o; let v ← tok Nat v
+    pure (run1 do
+      let (o', r) ← Opt.assign (σ := DS) o v
+      pure s!"{sh o'} {r} in")
+  | ["o.set", o, v] => do
+    let o ← tok (Option Nat) o; let v ← tok Nat v
+    if o.isNone then none   -- precondition of get_unsafe: not generated
+    pure (run1 (Opt.setUnsafe (σ := DS) o v))
+  | ["o.from_ptr", p, cells] => do
+    let p ← tok (Ptr Ref) p; let _ ← tbl Nat 3 cells
+    pure (run1 (Opt.fromPointer (σ := DS) p))
+  | ["o.to_ptr", o, cells] => do
+    let o ← tok (Option Ref) o; let _ ← tbl Nat 3 cells
+    pure (run1 (Opt.toPointer (σ := DS) o))
+  | ["o.to_exc", c, o] => do
+    cat? c; let o ← tok (Option Nat) o
+    pure (run1 (Opt.toException o (fun _ => do lg "m" []; pure (.other "E2"))))
+  | ["o.make", c, v] => do
+    cat? c; let v ← tok Nat v
+    pure (run1 (pure (Opt.make v)))
+  | ["o.out", o] => do
+    let o ← tok (Option Nat) o
+    let (_, st) := Opt.output (σ := String) (fun ch s => (.ok (), s.push ch)) (fun (v : Nat) s => (.ok (), s ++ toString v)) o ""
+    pure (st ++ " | -")
+  | ["o.nothing"] => pure (run1 (pure (Opt.nothing : Option Nat)))
+  -- either -----------------------------------------------------------------------------------
+  | ["e.cmp", a, b] => do
+    let a ← tok (Either Nat Nat) a; let b ← tok (Either Nat Nat) b
+    pure (run1 do
+      let e ← Either.eq natEq natEq a b; let n ← Either.ne natEq natEq a b
+      pure [e, n])
+  | ["e.cmp.same", a] => do
+    let a ← tok (Either Nat Nat) a
+    pure (run1 do
+      let e ← Either.eq natEq natEq a a; let n ← Either.ne natEq natEq a a
+      pure [e, n])
+  | ["e.construct", b, s, f] => do
+    let b ← tok Bool b; let s ← tokx Nat s; let f ← tokx Nat f
+    pure (run1 (Either.construct (φ := Nat) b (thunk "s" s) (thunk "f" f)))
+  | ["e.err_from_opt", c, o] => do
+    cat? c; let o ← tok (Option Nat) o
+    pure (run1 (Either.errorFromOptional (σ := DS) o))
+  | ["e.mk_fail", c, v] => do
+    cat? c; let v ← tok Nat v
+    pure (run1 (pure (Either.makeFailure v : Either Nat Nat)))
+  | ["e.mk_succ", c, v] => do
+    cat? c; let v ← tok Nat v
+    pure (run1 (pure (Either.makeSuccess v : Either Nat Nat)))
+  | ["e.out", e] => do
+    let e ← tok (Either Nat Nat) e
+    let put : Nat → K String Unit := fun v s => (.ok (), s ++ toString v)
+    let (_, st) := Either.output put put e ""
+    pure (st ++ " | -")
+  | ["e.seq_err", c, l, f] => do
+    cat? c; let l ← tok (List Nat) l; let f ← tbl (Either Nat Unit) 3 f
+    pure (run1 (Either.sequenceError l (fn1 "f" f)))
+  | ["e.to_exc", c, e] => do
+    cat? c; let e ← tok (Either Nat Nat) e
+    pure (run1 (Either.toException e (fun f => do lg "m" [f]; pure (.other s!"E1:{f}"))))
+  | ["e.set", e, v] => do
+    let e ← tok (Either Nat Nat) e; let v ← tok Nat v
+    pure (run1 (match e with
+      | .success _ => Either.setSuccessUnsafe (σ := DS) e v
+      | .failure _ => Either.setFailureUnsafe (σ := DS) e v))
+  -- variant ----------------------------------------------------------------------------------
+  | ["v.to_opt_ref", c, j, v, nv] => do
+    catLC? c; let j ← fin3 j; let v ← tok V3 v; let nv ← tok Nat nv
+    pure (run1 do
+      let r ← Var.toOptionalRef (τ := fun _ => Nat) j v
+      match r with
+      | none => pure s!"N - {sh v}"
+      | some x =>
+        if c = "L" then do
+          -- written through the reference, then read through it
+          let v' ← Var.setUnsafe (τ := fun _ => Nat) j v nv
+          let r' ← Var.getUnsafe (τ := fun _ => Nat) j v'
+          pure s!"J{r'} in {sh v'}"
+        else pure s!"J{x} in {sh v}")
+  | ["v.get", v, nv] => do
+    let v ← tok V3 v; let nv ← tok Nat nv
+    pure (run1 do
+      let x ← Var.getUnsafe (τ := fun _ => Nat) v.idx v
+      let v' ← Var.setUnsafe (τ := fun _ => Nat) v.idx v nv
+      pure s!"{x} {sh v'}")
+  | ["v.out", v] => do
+    let v ← tok V3 v
+    let (_, st) := Var.output (σ := String) (τ := fun _ => Nat) (fun _ (x : Nat) s => (.ok (), s ++ toString x)) v ""
+    pure (st ++ " | -")
+  | ["v.tinfo", v] => do
+    let v ← tok V3 v
+    pure (run1 (pure s!"{Var.typeIndex v}{Var.typeIndex v}f"))
+  | ["v.dyn", c, types, dyn] => do
+    let dyn ← tok Nat dyn <|> (if dyn = "3" then some 3 else none)
+    let ok := if c = "L" then ["1", "2", "12", "21", "32", "123", "231", "321"].contains types
+              else if c = "C" then ["12", "21"].contains types else false
+    if !ok then none
+    let tys := types.toList.map fun ch => ch.toNat - 48
+    -- dynamic type 0 = base, 1 = d1, 2 = d2 (derived from d1), 3 = d3
+    let isA (ty : Nat) : Bool := (dyn = ty) || (dyn = 2 && ty = 1)
+    pure (run1 do
+      let r ← dynamicCast (tys.map fun ty (_ : Unit) => (pure (if isA ty then some ty else none) : KD (Option Nat)))
+      pure (match r with
+        | none => "N"
+        | some (i, ty) => s!"J{i}:{ty}=obj"))
+  -- special members, std::swap -----------------------------------------------------------------
+  | ["o.asg", k, a, b] => do
+    let a ← tok (Option Nat) a; let b ← tok (Option Nat) b
+    (asgOp k a b).map fun r => r ++ " | -"
+  | ["e.asg", k, a, b] => do
+    let a ← tok (Either Nat Nat) a; let b ← tok (Either Nat Nat) b
+    (asgOp k a b).map fun r => r ++ " | -"
+  | ["v.asg", k, a, b] => do
+    let a ← tok V3 a; let b ← tok V3 b
+    (asgOp k a b).map fun r => r ++ " | -"
+  | ["o.assign.own", o] => do
+    let o ← tok (Option Nat) o
+    let x ← o     -- precondition of get_unsafe: not generated for nothing
+    pure (run1 do
+      let (o', r) ← Opt.assign (σ := DS) o x
+      pure s!"{sh o'} {r} in")
+  -- constructors ------------------------------------------------------------------------------
+  | ["o.ctor", c, v] => do
+    cat? c; let v ← tok Nat v
+    pure (run1 (pure (some v)))
+  | ["e.ctor", c, k, v] => do
+    cat? c; let v ← tok Nat v
+    if k = "S" then pure (run1 (pure (Either.success v : Either Nat Nat)))
+    else if k = "F" then pure (run1 (pure (Either.failure v : Either Nat Nat)))
+    else none
+  | ["v.ctor", c, v] => do
+    cat? c; let v ← tok V3 v
+    pure (run1 (pure v))
+  | ["o.to_exc_ref", c, o] => do
+    catLC? c; let o ← tok (Option Nat) o
+    pure (run1 do
+      let x ← Opt.toException o (fun _ => do lg "m" []; pure (.other "E2"))
+      pure s!"in:{x}")
+  | ["e.to_exc_ref", c, e] => do
+    catLC? c; let e ← tok (Either Nat Nat) e
+    pure (run1 do
+      let x ← Either.toException e (fun f => do lg "m" [f]; pure (.other s!"E1:{f}"))
+      pure s!"in:{x}")
+  -- monad ------------------------------------------------------------------------------------
+  | ["m.chain2.o", c, o, f, g] => do
+    cat? c; let o ← tok (Option Nat) o; let f ← tbl (Option Nat) 3 f; let g ← tbl (Option Nat) 3 g
+    pure (run1 (chainOpt2 o (fn1 "f" f) (fn1 "g" g)))
+  | ["m.chain2.e", c, e, f, g] => do
+    cat? c; let e ← tok (Either Nat Nat) e; let f ← tbl (Either Nat Nat) 3 f; let g ← tbl (Either Nat Nat) 3 g
+    pure (run1 (chainEither2 e (fn1 "f" f) (fn1 "g" g)))
+  | ["m.chain0.o", c, o] => do
+    cat? c; let o ← tok (Option Nat) o
+    pure (run1 (chainOptN (σ := DS) o []))
+  | ["m.do3.o", c, o, f, g] => do
+    cat? c; let o ← tok (Option Nat) o; let f ← tbl (Option Nat) 3 f; let g ← tbl (Option Nat) 9 g
+    pure (run1 (doOpt3 o (fn1 "f" f) (fn2 "g" g)))
+  | ["m.do3.e", c, e, f, g] => do
+    cat? c; let e ← tok (Either Nat Nat) e; let f ← tbl (Either Nat Nat) 3 f; let g ← tbl (Either Nat Nat) 9 g
+    pure (run1 (doEither3 e (fn1 "f" f) (fn2 "g" g)))
+  | ["m.ret.o", v] => do
+    let v ← tok Nat v
+    pure (run1 (pure (returnOpt v)))
+  | ["m.ret.e", v] => do
+    let v ← tok Nat v
+    pure (run1 (pure (returnEither v : Either Nat Nat)))
+  | _ => handleVV toks
 
 /-- the `i`-th table D×D → D in counting order (most significant digit first) -/
 def table9 (i : Nat) : String :=
@@ -346,6 +785,7 @@ def handle (toks : List String) : String :=
   match toks with
   | "all9" :: rest =>
     if rest.count "*" ≠ 1 then "bad-op"
+    else if (handle1 (rest.map fun x => if x = "*" then "000000000" else x)).isNone then "bad-op"
     else
       let h := (List.range (3 ^ 9)).foldl (fun h i =>
         let t := table9 i
